@@ -196,6 +196,32 @@ def reset_globals():
     models_thickness._LOADED.clear()
     psd_kernel._LOADED.clear()
     import sys
+    # module-level containers (lists of candidate models, lookup tables, defaults ...) back to their import-time content
+    if 'modglobals' not in _BASE:
+        snap = {}
+        for n, mod in list(sys.modules.items()):
+            if not n.startswith('pygaps') or mod is None:
+                continue
+            for k, v in list(vars(mod).items()):
+                if isinstance(v, (list, dict, set)) and k not in ('ADSORBATE_LIST', 'MATERIAL_LIST', '_LOADED', '__builtins__', '__all__', '__path__') and len(v) < 5000:
+                    try:
+                        snap[(n, k)] = (v, copy.deepcopy(v))
+                    except Exception:
+                        pass
+        _BASE['modglobals'] = snap
+    for (n, k), (obj, saved) in _BASE['modglobals'].items():
+        try:
+            if obj != saved:
+                if isinstance(obj, list):
+                    obj[:] = copy.deepcopy(saved)
+                elif isinstance(obj, dict):
+                    obj.clear()
+                    obj.update(copy.deepcopy(saved))
+                else:
+                    obj.clear()
+                    obj.update(saved)
+        except Exception:
+            pass
     for n, mod in list(sys.modules.items()):
         if n.startswith('pygaps.') and mod is not None:
             for k, v in list(vars(mod).items()):
@@ -242,6 +268,9 @@ def fresh_world():
                                     temperature=303.0, **U)
     w['pco2'] = pygaps.PointIsotherm(pressure=[0.05, 0.2, 0.5, 1.0, 2.0, 4.0], loading=[0.6, 1.7, 2.7, 3.4, 3.9, 4.2], material='c04-M',
                                      adsorbate='CO2', temperature=298.0, **U)
+    prel = numpy.array([1e-5, 1e-4, 1e-3, 0.01, 0.05, 0.1, 0.2, 0.4, 0.7, 0.9])
+    w['pdr'] = pygaps.PointIsotherm(pressure=prel, loading=6.0 * numpy.exp(-(-8.314462618 * 77.355 * numpy.log(prel) / 5500.0) ** 2), material='c04-M', adsorbate='N2',
+                                    temperature=77.355, **dict(U, pressure_mode='relative', pressure_unit=None))
     w['pch4'] = pygaps.PointIsotherm(pressure=[0.05, 0.2, 0.5, 1.0, 2.0, 4.0], loading=[0.1, 0.4, 0.9, 1.5, 2.2, 2.9], material='c04-M',
                                      adsorbate='CH4', temperature=298.0, **U)
     return w
@@ -308,6 +337,20 @@ def user_kernels():
             paths.append(f)
         _KERNELS['paths'] = paths
     return _KERNELS['paths']
+
+
+def broken_kernel():
+    if 'broken' not in _KERNELS:
+        from pygaps.data import KERNELS
+        raw = pandas.read_csv(str(KERNELS['DFT-N2-77K-carbon-slit']), index_col=0)
+        sub = raw[list(raw.columns[[8, 20, 32, 44, 56, 68]])].astype(object)
+        sub.iloc[7, 5] = '-'
+        d = os.path.join(core.scratch(), 'c04-kernels-broken')
+        os.makedirs(d, exist_ok=True)
+        f = os.path.join(d, 'lab-kernel.csv')
+        sub.to_csv(f)
+        _KERNELS['broken'] = f
+    return _KERNELS['broken']
 
 
 def build_queries(tier):
@@ -407,6 +450,12 @@ def build_queries(tier):
     add('model_iso(Toth,des)', lambda w: pgm.model_iso(w['p'], model='Toth', branch='des'))
     add('model_iso(DR)', lambda w: pgm.model_iso(w['p'], model='DR'))
     add('model_iso([Henry,Langmuir,Toth])', lambda w: pgm.model_iso(w['p'], model=['Henry', 'Langmuir', 'Toth']))
+    # automatic model selection: on an absolute-pressure and on a relative-pressure isotherm (the candidate list is global state)
+    add("model_iso(guess) on absolute pressure", lambda w: pgm.model_iso(w['p'], model='guess'))
+    add("model_iso(guess) on relative pressure", lambda w: pgm.model_iso(w['pdr'], model='guess'))
+    add("ModelIsotherm.guess(relative, DR/DA/Langmuir)", lambda w: __import__('pygaps').ModelIsotherm.guess(
+        pressure=w['pdr'].pressure(), loading=w['pdr'].loading(), models=['DR', 'DA', 'Langmuir'], material='c04-M', adsorbate='N2', temperature=77.355,
+        **dict(pressure_mode='relative', loading_basis='molar', loading_unit='mmol', material_basis='mass', material_unit='g')))
     add('from_modelisotherm', lambda w: __import__('pygaps').PointIsotherm.from_modelisotherm(w['mL'], pressure_points=[0.1, 0.2, 0.4]))
     # IAST
     add('iast_point(models)', lambda w: pgi.iast_point([w['mL'], w['mT']], [0.2, 0.3]), True)
@@ -419,6 +468,8 @@ def build_queries(tier):
     # kernels given by path: two files with the same name are two kernels
     add('psd_dft(user kernel A)', lambda w: pgc.psd_dft(w['p'], kernel=user_kernels()[0], branch='ads', p_limits=(0.06, 0.85), bspline_order=0), True)
     add('psd_dft(user kernel B, same file name)', lambda w: pgc.psd_dft(w['p'], kernel=user_kernels()[1], branch='ads', p_limits=(0.06, 0.85), bspline_order=0), True)
+    # a kernel file that cannot be loaded (a bad cell in its last column): refused, and refused again
+    add('ERR psd_dft(unloadable user kernel)', lambda w: pgc.psd_dft(w['p'], kernel=broken_kernel(), branch='ads', p_limits=(0.06, 0.85), bspline_order=0), True)
     # error paths: a query that is refused (possibly after it started working) must leave everything untouched as well
     add('ERR whittaker(point, unknown model)', lambda w: pgc.enthalpy_sorption_whittaker(w['pco2'], model='Tooth'))
     add('ERR whittaker(point, Henry)', lambda w: pgc.enthalpy_sorption_whittaker(w['pco2'], model='Henry'))
@@ -561,9 +612,12 @@ def run(ctx):
     jobs = []
     if ctx.quick:
         sub = [n for n in SUB if n in pure_names]
+        slow = [n for n in pure_names if n.startswith(('model_iso(guess)', 'ModelIsotherm.guess'))]       # seconds per call: paired among themselves
         for a in pure_names:
-            seconds = sub if a in sub else probe
-            jobs.append((tier, a, seconds, base, base_snap))
+            seconds = sub if a in sub else [n for n in probe if n not in slow]
+            if a in slow:
+                seconds = slow + ['model_iso(Langmuir)', 'iso_id']
+            jobs.append((tier, a, [n for n in seconds if n in pure_names], base, base_snap))
     else:
         for a in pure_names + heavy_names:
             jobs.append((tier, a, pure_names + (heavy_names if a not in heavy_names else []), base, base_snap))
